@@ -132,6 +132,30 @@ func genC17(seed uint64, tier string) *Scenario {
 			sub = genStdScenario(s, "C17", "Shanghai")
 		}
 		sub.Execs = sub.Execs[:1]
+		if r.P(1, 3) {
+			// a frame that dies on an undefined instruction: the error's text is formatted (and the
+			// instruction named) by whoever looks at it - tracer, join point, host - in every
+			// instance that meets one, so anything shared behind that formatting is exercised
+			for k := range sub.Accounts {
+				if p := sub.Accounts[k].Code; p != nil {
+					undef := []byte{0x0c, 0x0d, 0x0e, 0x0f, 0x1e, 0x1f, 0x21, 0x22, 0x23, 0x24, 0x25, 0x26, 0x27, 0x28, 0x29, 0x2a, 0x2b, 0x2c, 0x2d, 0x2e, 0x2f,
+						0x49, 0x4a, 0x4b, 0x4c, 0x4d, 0x4e, 0x4f, 0xa5, 0xa6, 0xa7, 0xa8, 0xa9, 0xaa, 0xab, 0xac, 0xad, 0xae, 0xaf, 0xb0, 0xb1, 0xb2,
+						0xb5, 0xb6, 0xb7, 0xb8, 0xb9, 0xba, 0xbb, 0xbc, 0xbd, 0xbe, 0xbf, 0xc0, 0xc1, 0xc2, 0xc3, 0xc4, 0xc5, 0xc6, 0xc7, 0xc8, 0xc9,
+						0xca, 0xcb, 0xcc, 0xcd, 0xce, 0xcf, 0xd0, 0xd1, 0xd2, 0xd3, 0xd4, 0xd5, 0xd6, 0xd7, 0xd8, 0xd9, 0xda, 0xdb, 0xdc, 0xdd, 0xde,
+						0xdf, 0xe8, 0xe9, 0xea, 0xeb, 0xec, 0xed, 0xee, 0xef, 0xf6, 0xf7, 0xf8, 0xf9, 0xfb, 0xfc}
+					at := r.Intn(len(p.M) + 1)
+				if r.Bool() {
+					at = r.Intn(2) // early enough to be reached whatever the rest does
+					if at > len(p.M) {
+						at = len(p.M)
+					}
+				}
+					m := Macro{K: "raw", Data: hx([]byte{undef[r.Intn(len(undef))]})}
+					p.M = append(p.M[:at], append([]Macro{m}, p.M[at:]...)...)
+					break
+				}
+			}
+		}
 		sc.Subs = append(sc.Subs, sub)
 	}
 	sc.Sched = Sched{SwitchPPM: pick(r, []int{10, 100, 300, 500, 900}), Seed: r.U64()}
@@ -283,11 +307,9 @@ func raceOne(sc *Scenario) []string {
 	var problems []string
 	n := len(sc.Subs)
 	solo := make([]string, n)
-	for i, sub := range sc.Subs {
-		if cancelFault(sub) == nil {
-			solo[i], _ = soloDigest(sub, i)
-		}
-	}
+	// The solo reference runs come AFTER the concurrent phase: run first, they would perform
+	// every first use (lazily filled tables, memoised names) alone and in order, and the
+	// concurrent phase would only ever read what they left behind.
 	var wg sync.WaitGroup
 	got := make([]string, n)
 	pan := make([]string, n)
@@ -333,6 +355,11 @@ func raceOne(sc *Scenario) []string {
 	}
 	wg.Wait()
 	drainSwallowed()
+	for i, sub := range sc.Subs {
+		if cancelFault(sub) == nil {
+			solo[i], _ = soloDigest(sub, i)
+		}
+	}
 	for i := range sc.Subs {
 		if pan[i] != "" {
 			problems = append(problems, fmt.Sprintf("executor %d panicked: %s", i, pan[i]))
@@ -368,8 +395,8 @@ func raceTier(c *Check, tier string, base uint64, st *Stats) []Found {
 		fmt.Fprintln(os.Stderr, "harness: race binary missing (", bin, ")")
 		os.Exit(2)
 	}
-	n := "60"
-	secs := "30"
+	n := "100"
+	secs := "75"
 	if tier == "thorough" {
 		n, secs = "2000", "420"
 	}
